@@ -56,6 +56,7 @@ type opPlan struct {
 	CancelCtx int  // >0: the Await context is cancelled after that many yields
 	CancelMsg bool // send a "cancel" notification for the call before awaiting
 	ReAwait   bool // await again with a background context afterwards
+	CallCtx   int  // context given to Call/Notify itself: 0 background, 1 already cancelled, k>1 cancelled after k-1 yields
 	N         int  // yield count
 }
 
@@ -286,6 +287,9 @@ func (c39) NewRun(plan *simrt.Source, job *harn.Job) harn.Run {
 					o.CancelMsg = plan.Chance(120)
 					o.ReAwait = plan.Chance(300)
 				}
+				if (o.Kind == "call" || o.Kind == "notify") && plan.Chance(120) {
+					o.CallCtx = 1 + plan.Draw(12)
+				}
 				if o.Kind == "wait" && k != n-1 {
 					o.Kind = "yield"
 					o.N = 3
@@ -395,9 +399,16 @@ func fmtOps(ops []opPlan) string {
 			if o.ReAwait {
 				sb.WriteString(",re-await")
 			}
+			if o.CallCtx > 0 {
+				fmt.Fprintf(&sb, ",Call's own ctx cancelled after %d", o.CallCtx-1)
+			}
 			sb.WriteString(") ")
 		case "notify":
-			fmt.Fprintf(&sb, "notify(%s) ", o.Method)
+			fmt.Fprintf(&sb, "notify(%s", o.Method)
+			if o.CallCtx > 0 {
+				fmt.Fprintf(&sb, ",ctx cancelled after %d", o.CallCtx-1)
+			}
+			sb.WriteString(") ")
 		case "burst":
 			fmt.Fprintf(&sb, "burst(slow,slow,%d echo,unblock,%d echo,unblock) ", o.N, o.CancelCtx)
 		case "yield":
@@ -420,7 +431,6 @@ type listener struct {
 	r       *c39run
 	pending []*simnet.End
 	fakeB   []net.Conn
-	next    int // index of the endpoint pair used by the next Dial (0: A/B, 2: C/D)
 	closed  bool
 	failNow bool // the pending or next Accept returns an ordinary error
 	dead    bool // an Accept failed: the server has stopped accepting although the listener is not closed
@@ -481,14 +491,25 @@ func (l *listener) dropBacklog() {
 	l.pending, l.fakeB = nil, nil
 }
 
-func (l *listener) Dialer() jsonrpc2.Dialer { return l }
+func (l *listener) Dialer() jsonrpc2.Dialer { return clientDialer{l, 0} }
 
-func (l *listener) Dial(ctx context.Context) (io.ReadWriteCloser, error) {
+// clientDialer dials for one particular client: the pipe it creates belongs to
+// the endpoint records pair (idx, idx+1). (A shared "next index" field was a
+// harness race: two clients dialling at the same time swapped their records.)
+type clientDialer struct {
+	l   *listener
+	idx int
+}
+
+func (d clientDialer) Dial(ctx context.Context) (io.ReadWriteCloser, error) {
+	return d.l.dial(ctx, d.idx)
+}
+
+func (l *listener) dial(ctx context.Context, i int) (io.ReadWriteCloser, error) {
 	simrt.Yield("listener.Dial")
 	if l.closed || l.dead {
 		return nil, errors.New("simnet: connection refused (listener closed)")
 	}
-	i := l.next
 	a, b := simnet.Pipe(l.r.eps[i].name, l.r.eps[i+1].name, l.r.net.Cap)
 	if i == 0 {
 		a.F, b.F = l.r.net.A, l.r.net.B
@@ -904,7 +925,12 @@ func (r *c39run) doCall(ep *endpoint, task string, o opPlan) {
 		}
 		return
 	}
-	cr.ac = ep.conn.Call(context.Background(), o.Method, params{Nonce: cr.nonce})
+	cctx, done := r.opCtx(o.CallCtx)
+	if o.CallCtx > 0 {
+		cr.cancelled = true // the caller withdrew: any outcome but another call's answer is fine
+	}
+	cr.ac = ep.conn.Call(cctx, o.Method, params{Nonce: cr.nonce})
+	done()
 	cr.id = idStr(cr.ac.ID())
 	if o.CancelMsg {
 		cr.cancelled = true
@@ -922,6 +948,28 @@ func (r *c39run) doCall(ep *endpoint, task string, o opPlan) {
 	if o.ReAwait || (aw.ctxCancelled && errors.Is(aw.err, context.Canceled)) {
 		r.await(cr, context.Background(), 0, true)
 	}
+}
+
+// opCtx is the context handed to Call or Notify itself: live, already
+// cancelled, or cancelled by another task a few steps later (possibly while the
+// message is waiting for, or holding, the connection's writer).
+func (r *c39run) opCtx(mode int) (context.Context, func()) {
+	if mode == 0 {
+		return context.Background(), func() {}
+	}
+	ctx, cancel := context.WithCancel(context.Background())
+	r.sim.Fault("call-context-cancelled")
+	if mode == 1 {
+		cancel()
+		return ctx, func() {}
+	}
+	simrt.Go("call-ctx-canceller", func() {
+		for i := 1; i < mode; i++ {
+			simrt.Yield("call-ctx-canceller")
+		}
+		cancel()
+	})
+	return ctx, cancel
 }
 
 // startCall issues a call without awaiting it.
@@ -1075,7 +1123,9 @@ func (r *c39run) Body(s *simrt.Sim) {
 					r.doCall(ep, name, o)
 				case "notify":
 					r.nonce++
-					ep.conn.Notify(context.Background(), o.Method, params{Nonce: r.nonce})
+					nctx, done := r.opCtx(o.CallCtx)
+					ep.conn.Notify(nctx, o.Method, params{Nonce: r.nonce})
+					done()
 				case "close":
 					r.doClose(ep)
 				case "wait":
@@ -1114,8 +1164,7 @@ func (r *c39run) secondClient() {
 		simrt.Yield("second-client-delay")
 	}
 	c := r.eps[2]
-	r.lis.next = 2
-	if _, err := jsonrpc2Dial(r.lis.Dialer(), c); err != nil {
+	if _, err := jsonrpc2Dial(clientDialer{r.lis, 2}, c); err != nil {
 		// the server was shut down before this client dialled
 		r.sim.Probe("second-dial-refused")
 		r.tasksDone++
@@ -1142,8 +1191,7 @@ func (r *c39run) lateClients() {
 	for k := 0; k < r.lateDials; k++ {
 		i := len(r.eps) - 2*(r.lateDials-k)
 		c := r.eps[i]
-		r.lis.next = i
-		if _, err := jsonrpc2Dial(r.lis.Dialer(), c); err != nil {
+		if _, err := jsonrpc2Dial(clientDialer{r.lis, i}, c); err != nil {
 			r.sim.Probe("idle:late-dial-refused")
 			return
 		}
